@@ -27,10 +27,11 @@ func ParseTimestamp(timestampStr string) (*timestamppb.Timestamp, error) {
 }
 
 // MarshalTimestamp marshals a timestamp to a RFC3339 string.
+// Sub-second precision is kept (RFC3339Nano) so that ParseTimestamp returns the same value.
 // This format is also supported by proto3.
 func MarshalTimestamp(ts *timestamppb.Timestamp) string {
 	if ts == nil {
 		return ""
 	}
-	return ts.AsTime().Format(time.RFC3339)
+	return ts.AsTime().Format(time.RFC3339Nano)
 }
